@@ -133,6 +133,10 @@ def variants_for(pid: str) -> List[dict]:
         if meta.get("property") != pid or not meta.get("caught_by"):
             continue
         out.append({"name": f"seeded:{m.parent.name}", "diff": f"seeded/{m.parent.name}/patch.diff", "fires": meta["caught_by"]})
+    # behaviour-preserving refactorings written by independent engineers (selftest/neutral): no check may report anything,
+    # an ANALYSIS-ERROR (exit 2) counts as failure too
+    for d in sorted((VERIF / "selftest" / "neutral").glob("*/patch.diff")):
+        out.append({"name": f"neutral:{d.parent.name}", "diff": f"selftest/neutral/{d.parent.name}/patch.diff", "fires": None})
     return out
 
 
